@@ -4,9 +4,11 @@ Decides (structural, necessary conditions): the write-ahead orderings that crash
 on, the torn-tail tolerance of manifest replay, single-write transaction records, and who may
 mutate/unlink files. Does not decide: what recovery does with the bytes (value level)."""
 import re
+import inline
 
 from tmpl import (order_before, follows, done_sites, start_sites, gate_false_targets, gate_true_targets, who, site, suffix,
-                  flows_from, local_defs, origin_locals, pl_fields)
+                  flows_from, local_defs, origin_locals, pl_fields, region_callees, arg_indices, await_sites,
+                  bool_call_true_targets)
 from mir import operand_places
 
 SEC = 'storage::secondary::'
@@ -99,7 +101,7 @@ def run(ctx):
     n_inst = 0
 
     def body(name, rule=R1):
-        b = prog.body(name)
+        b = prog.inlined(name)          # with the helpers only this function calls spliced in (lib/inline.py)
         ctx.anchor(rule, name, b is not None)
         return b
 
@@ -148,29 +150,33 @@ def run(ctx):
               any(prog.group_reaches_call(prog.bodies[n].root, suffix('RowsetWriter::flush'), 4)
                   for n in prog.callee_bodies(c))]
         ctx.anchor(R1, 'flush_rowset:mem.flush→RowsetWriter::flush', fl)
-    # b. pipe_to_file: write_all → sync_data on the file arm
-    b = body(PIPE)
+    # b, c. RowsetWriter::flush with its private helpers spliced in (pipe_to_file, sync_dir on today's tree - whatever they are called and
+    #       however the function is cut): every write to a column / index file is followed by the sync of that file, and by the sync of
+    #       the directory (a File opened with File::open) unless the backend is in-memory
+    b = prog.inlined(RW_FLUSH, keep=None)
+    ctx.anchor(R1, RW_FLUSH, b is not None)
     if b:
         w = file_write_sites(b)
-        if ctx.anchor(R1, 'pipe_to_file:write_all<File>', w):
-            follows(ctx, prog, R1, b, w, 'tokio::fs::File::sync_data', 'b:pipe_to_file:write_all→sync_data',
-                    what='write_all on the column/index file')
+        kinds = {'file': [], 'dir': []}
+        for c in b.calls:
+            if (c.fn or '').endswith('fs::File::sync_data') and c.args and c.args[0]['k'] != 'const':
+                def opened(pat, c=c):
+                    return flows_from(b, c.args[0]['pl']['l'], lambda k, p_, bb: k == 'call' and re.search(pat, p_.get('fn') or ''), depth=24)
+                if opened(r'fs::OpenOptions::open$|fs::File::create$'):
+                    kinds['file'] += await_sites(b, c)
+                elif opened(r'fs::File::open$'):
+                    kinds['dir'] += await_sites(b, c)
+        if ctx.anchor(R1, 'RowsetWriter::flush:write_all<File>', w):
+            follows(ctx, prog, R1, b, w, 'File::sync_data of the file written', 'b:RowsetWriter::flush:write_all→sync_data(file)',
+                    b_sites=kinds['file'], what='write_all on the column/index file')
             n_inst += 1
-    # c. RowsetWriter::flush: sync_dir after the last pipe_to_file; sync_dir really syncs
-    b = body(RW_FLUSH)
-    if b:
-        p = start_sites(prog, b, 'RowsetWriter::pipe_to_file')
-        if ctx.anchor(R1, 'RowsetWriter::flush:pipe_to_file', p):
-            follows(ctx, prog, R1, b, p, 'RowsetWriter::sync_dir', 'c:RowsetWriter::flush:pipe_to_file→sync_dir',
-                    what='pipe_to_file')
+            mem = sorted(in_memory_arm_blocks(b) | set(bool_call_true_targets(b, r'IOBackend::is_in_memory$')))
+            follows(ctx, prog, R1, b, w, 'File::sync_data of the directory', 'c:RowsetWriter::flush:write→sync_data(directory)',
+                    b_sites=kinds['dir'], allowed=mem, what='the writes of the column/index files')
             n_inst += 1
-    b = body(SYNC_DIR)
-    if b:
-        inmem = [c.bb for c in b.calls if (c.fn or '').endswith('IOBackend::is_in_memory')]
-        s = done_sites(prog, b, 'tokio::fs::File::sync_data')
-        ctx.ob(R1, 'c:sync_dir:syncs-unless-in-memory', bool(s) and bool(inmem),
-               f'sync_dir must fsync the directory unless the backend is in-memory (sync sites {s}, gate {inmem})',
-               [site(b, x) for x in s])
+            ctx.ob(R1, 'c:RowsetWriter::flush:directory-sync-unless-in-memory', bool(kinds['dir']) and bool(mem),
+                   f'the directory is fsynced (sites {sorted(set(kinds["dir"]))}) unless the backend is in-memory (arms {mem[:6]})',
+                   [site(b, x) for x in kinds['dir']])
     # d. Manifest::append: write_all → sync_data unless gate enable_fsync; gate true for real files
     b = body(APPEND)
     if b:
@@ -203,7 +209,7 @@ def run(ctx):
     roots = sorted({bd.root for bd, _ in adders})
     ctx.floor(R1 + 'e', len(roots), 3, 'functions constructing EpochOp::AddRowSet')
     for bd, bb in adders:
-        if bd.root == BOOTSTRAP.rsplit('::{closure', 1)[0]:
+        if prog.owned_by(bd.root, {BOOTSTRAP.rsplit('::{closure', 1)[0]}):      # bootstrap, or a helper only bootstrap calls
             ctx.sample({'rule': R1, 'instance': 'e:bootstrap re-adds row-sets already on disk (named exception)'})
             continue
         def lifted(bd_, bb_):
@@ -302,7 +308,7 @@ def run(ctx):
                  'instead of propagating it: a torn tail is a crash artefact, not corruption')
     b = body(REPLAY, R2)
     if b:
-        grp = prog.group(b.root)
+        grp = inline.group(prog, b)
         classify = [c for g in grp for c in g.calls if re.search(r'serde_json::(error::)?Error::(is_eof|classify)', c.name or '')]
         raw = []
         for g in grp:
@@ -395,7 +401,7 @@ def run(ctx):
     for c in prog.calls_matching_all(destructive):
         m = destructive.search(c.fn or c.name)
         kind = next(g for g in m.groups() if g)
-        ok = c.body.root in OWN.get(kind, set())
+        ok = prog.owned_by(c.body.root, OWN.get(kind, set()))     # an owner, or a helper only owners call
         n += 1
         ctx.ob(R4, f'{c.body.root}→{kind}', ok, f'`{c.fn}` called from {c.body.name}'
                + ('' if ok else ' which is not an owner of file removal/rename/truncation'), [site(c.body, c.bb)])
@@ -434,9 +440,9 @@ def rule_r5(ctx, prog):
                  'append: every successful path of bootstrap after Manifest::replay completes VersionManager::rewrite_changes '
                  '(tmp file + rename, R1.f) -- or replay itself truncates the file (set_len)')
     b = prog.body(BOOTSTRAP)
-    rp = prog.body(REPLAY)
+    rp = prog.inlined(REPLAY)
     if ctx.anchor(R6, BOOTSTRAP, b is not None) and ctx.anchor(R6, REPLAY, rp is not None):
-        truncates = [c for g in prog.group(rp.root) for c in g.calls if re.search(r'fs::File::set_len$', c.fn or '')]
+        truncates = [c for g in inline.group(prog, rp) for c in g.calls if re.search(r'fs::File::set_len$', c.fn or '')]
         a = done_sites(prog, b, 'Manifest::replay')
         if ctx.anchor(R6, 'bootstrap:Manifest::replay', a):
             if truncates:
@@ -446,10 +452,10 @@ def rule_r5(ctx, prog):
                 mock = gate_true_targets(b, 'disable_all_disk_operation')   # mock manifest: there is no file to tear
                 follows(ctx, prog, R6, b, a, 'VersionManager::rewrite_changes', 'bootstrap:replay→rewrite_changes',
                         what='Manifest::replay (which may have skipped a torn tail)', allowed=mock)
-        rw = prog.body(REWRITE)
+        rw = prog.inlined(REWRITE)
         if ctx.anchor(R6, REWRITE, rw is not None):
-            rn = [c for g in prog.group(rw.root) for c in g.calls if re.search(r'tokio::fs::rename$', c.fn or '')]
-            ro = [c for g in prog.group(rw.root) for c in g.calls if (c.fn or '').endswith('Manifest::reopen')]
+            rn = [c for g in inline.group(prog, rw) for c in g.calls if re.search(r'tokio::fs::rename$', c.fn or '')]
+            ro = [c for g in inline.group(prog, rw) for c in g.calls if (c.fn or '').endswith('Manifest::reopen')]
             ctx.ob(R6, 'rewrite_changes·replaces-file', bool(rn) and bool(ro),
                    f'rewrite_changes must replace the manifest file (rename: {len(rn)} site(s)) and reopen it (reopen: {len(ro)} site(s)), '
                    'so that later appends go to the clean file', [site(rw, 0)])
@@ -461,24 +467,30 @@ def rule_r5(ctx, prog):
     b = prog.body(BOOTSTRAP)
     if not ctx.anchor(R5, BOOTSTRAP, b is not None):
         return
-    rms = [c for c in b.calls if (c.fn or '').endswith('fs::remove_dir_all')]
-    rd = done_sites(prog, b, 'tokio::fs::read_dir')
-    ne = done_sites(prog, b, 'tokio::fs::ReadDir::next_entry')
+    # the boot vacuum may sit in bootstrap itself or in helpers only bootstrap calls: (body, call in bootstrap that enters it | None)
+    boot_root = BOOTSTRAP.rsplit('::{closure', 1)[0]
+    boot_bodies = [(b, None)] + [(hb, c) for c, hb in region_callees(prog, b, None, depth=2)
+                                 if hb.root != boot_root and prog.owned_by(hb.root, {boot_root})
+                                 and hb.root not in getattr(b, 'inlined_from', [])]      # (already part of b when spliced in)
+    rms = [(hb, c) for hb, _ in boot_bodies for c in hb.calls if (c.fn or '').endswith('fs::remove_dir_all')]
     if not ctx.anchor(R5, 'bootstrap:remove_dir_all', rms):
         return
-    ctx.ob(R5, 'bootstrap·enumerates-directory', bool(rd) and bool(ne),
-           f'bootstrap must list the storage directory (read_dir blocks {rd}, next_entry blocks {ne})')
-    for c in rms:
+    for hb, c in rms:
+        rd = done_sites(prog, hb, 'tokio::fs::read_dir')
+        ne = done_sites(prog, hb, 'tokio::fs::ReadDir::next_entry')
+        ctx.ob(R5, 'bootstrap·enumerates-directory', bool(rd) and bool(ne),
+               f'bootstrap must list the storage directory (in {hb.name}: read_dir blocks {rd}, next_entry blocks {ne})')
+
         def from_entry(kind, payload, bb):
             return kind == 'call' and (payload.get('fn') or '').endswith('tokio::fs::DirEntry::path')
-        ok = c.args and c.args[0]['k'] != 'const' and flows_from(b, c.args[0]['pl']['l'], from_entry, depth=6)
+        ok = c.args and c.args[0]['k'] != 'const' and flows_from(hb, c.args[0]['pl']['l'], from_entry, depth=6)
         ctx.ob(R5, 'bootstrap·unlinks-enumerated-entry', bool(ok),
                'the directory removed at boot must be one found by enumeration (DirEntry::path), so that orphans are seen',
-               [site(b, c.bb)])
-        ck = [x.bb for x in b.calls if re.search(r'HashMap::<.*>::contains_key$', x.name or '')]
-        ctx.ob(R5, 'bootstrap·membership-test≺unlink', bool(ck) and b.dominated_by_any(set(ck), c.bb),
+               [site(hb, c.bb)])
+        ck = [x.bb for x in hb.calls if re.search(r'(Hash|BTree)Map::<.*>::contains_key$', x.name or '')]
+        ctx.ob(R5, 'bootstrap·membership-test≺unlink', bool(ck) and hb.dominated_by_any(set(ck), c.bb),
                f'removal (block {c.bb}) must be dominated by a contains_key test on the row-sets to open (blocks {ck})',
-               [site(b, c.bb)])
+               [site(hb, c.bb)])
 
     # R7 ----------------------------------------------------------------------------------------------
     R7 = 'C04-R7'
@@ -487,9 +499,9 @@ def rule_r5(ctx, prog):
                  'dv directory (a second read_dir), and removes a file found there (path from DirEntry::path) under a membership '
                  'test against the very map the AddDV arm of the replay fills')
     MANOP_ = 'storage::secondary::manifest::ManifestOperation'
-    rf = [c for c in b.calls if re.search(r'fs::remove_file$', c.fn or '')]
-    rd = done_sites(prog, b, 'tokio::fs::read_dir')
-    ctx.ob(R7, 'bootstrap·lists-dv-directory', len(rd) >= 2, f'read_dir sites in bootstrap: {rd} (row-set directory and dv directory)')
+    rf = [(hb, via, c) for hb, via in boot_bodies for c in hb.calls if re.search(r'fs::remove_file$', c.fn or '')]
+    rd = [(hb.name, x) for hb, _ in boot_bodies for x in done_sites(prog, hb, 'tokio::fs::read_dir')]
+    ctx.ob(R7, 'bootstrap·lists-dv-directory', len(rd) >= 2, f'read_dir sites in bootstrap and its helpers: {rd} (row-set directory and dv directory)')
     sw = [(i, bl['term']) for i, bl in enumerate(b.blocks) if bl['term']['k'] == 'switch' and bl['term'].get('adt') == MANOP_]
     dv_map = set()
     if sw:
@@ -499,24 +511,32 @@ def rule_r5(ctx, prog):
             others = {tgt for vv, tgt in arms.items() if vv != 'AddDV'} | {i}
             region = b.reachable_from([arms['AddDV']], avoid=others)
             for c in b.calls:
-                if c.bb in region and re.search(r'HashMap::<.*>::insert$', c.name or '') and c.args and c.args[0]['k'] != 'const':
-                    dv_map |= {l for l in origin_locals(b, c.args[0]['pl']['l'], depth=4) if 'HashMap' in b.local_ty(l) and not b.local_ty(l).startswith('&')}
+                if c.bb in region and re.search(r'(Hash|BTree)Map::<.*>::insert$', c.name or '') and c.args and c.args[0]['k'] != 'const':
+                    dv_map |= {l for l in origin_locals(b, c.args[0]['pl']['l'], depth=4) if re.search(r'(Hash|BTree)Map', b.local_ty(l)) and not b.local_ty(l).startswith('&')}
     if ctx.anchor(R7, 'bootstrap: map filled by the AddDV arm', dv_map):
         if not rf:
             ctx.ob(R7, 'bootstrap·unlinks-unlisted-dv-files', False, 'bootstrap never removes a file: stale DV files survive every reopen',
                    [site(b, 0)],
                    what='delete-vector files that the manifest no longer mentions survive a reopen while their ids are handed out again: '
                         'a later DELETE fails with AlreadyExists')
-        for c in rf:
+        for hb, via, c in rf:
             def from_entry(kind, payload, bb):
                 return kind == 'call' and (payload.get('fn') or '').endswith('tokio::fs::DirEntry::path')
-            enumerated = bool(c.args and c.args[0]['k'] != 'const' and flows_from(b, c.args[0]['pl']['l'], from_entry, depth=6))
-            ck = [x for x in b.calls if re.search(r'HashMap::<.*>::contains_key$', x.name or '') and x.args and x.args[0]['k'] != 'const'
-                  and dv_map & origin_locals(b, x.args[0]['pl']['l'], depth=4)]
-            member = bool(ck) and b.dominated_by_any({x.bb for x in ck}, c.bb)
+            enumerated = bool(c.args and c.args[0]['k'] != 'const' and flows_from(hb, c.args[0]['pl']['l'], from_entry, depth=6))
+
+            def on_dv_map(x):
+                """is the receiver of this contains_key the map the AddDV arm fills (directly, or handed to the helper)?"""
+                if not (x.args and x.args[0]['k'] != 'const'):
+                    return False
+                if via is None:
+                    return bool(dv_map & origin_locals(hb, x.args[0]['pl']['l'], depth=10))
+                handed = {k for k, a in enumerate(via.args) if a['k'] != 'const' and dv_map & origin_locals(b, a['pl']['l'], depth=6)}
+                return bool(handed & arg_indices(prog, hb, x.args[0]['pl']['l']))
+            ck = [x for x in hb.calls if re.search(r'(Hash|BTree)Map::<.*>::contains_key$', x.name or '') and on_dv_map(x)]
+            member = bool(ck) and hb.dominated_by_any({x.bb for x in ck}, c.bb)
             ctx.ob(R7, 'bootstrap·unlinks-unlisted-dv-files', enumerated and member,
-                   f'remove_file at block {c.bb}: path from DirEntry::path: {enumerated}; dominated by contains_key on the AddDV map '
-                   f'(blocks {[x.bb for x in ck]}): {member}', [site(b, c.bb)],
+                   f'remove_file in {hb.name} at block {c.bb}: path from DirEntry::path: {enumerated}; dominated by contains_key on the AddDV map '
+                   f'(blocks {[x.bb for x in ck]}): {member}', [site(hb, c.bb)],
                    what='delete-vector files that the manifest no longer mentions survive a reopen while their ids are handed out again: '
                         'a later DELETE fails with AlreadyExists')
 
@@ -525,7 +545,7 @@ def rule_r5(ctx, prog):
     ctx.rule(R8, 'Begin..End brackets make a multi-record transaction atomic: in Manifest::replay the vector that is returned receives '
                  'records only in the End arm (from a staging buffer), or it is cut back to the last End (truncate) before it is '
                  'returned; a record pushed straight into the result under Begin is applied even when its End never reached the disk')
-    rp = prog.body(REPLAY)
+    rp = prog.inlined(REPLAY)
     if ctx.anchor(R8, REPLAY, rp is not None):
         ctx.functions_analysed.add(rp.name)
         MANOP__ = 'storage::secondary::manifest::ManifestOperation'
@@ -533,7 +553,7 @@ def rule_r5(ctx, prog):
         # the returned vector: operand of the Ok(..) aggregate assigned to _0
         ret = set()
         for bb, st in rp.stmts():
-            if st['s'] == 'assign' and st['lhs']['l'] == 0 and st['rv'].get('rv') == 'agg' and st['rv'].get('variant') == 'Ok':
+            if st['s'] == 'assign' and st['lhs']['l'] in rp.ret_locals() and st['rv'].get('rv') == 'agg' and st['rv'].get('variant') == 'Ok':
                 for o in st['rv'].get('ops', []):
                     if o['k'] != 'const' and 'Vec<' in rp.local_ty(o['pl']['l']) and 'ManifestOperation' in rp.local_ty(o['pl']['l']):
                         ret |= {l for l in origin_locals(rp, o['pl']['l'], depth=3) if rp.local_ty(l) == rp.local_ty(o['pl']['l'])}
@@ -584,5 +604,5 @@ def boot_vacuum_always(ctx, prog, rid):
                 if src and any(f.endswith('::disable_all_disk_operation') for p in operand_places(src[-1]['rv']) for f in pl_fields(p)):
                     # `!flag`: the 0 target is the flag-is-set side, and nothing else may be tested in this block
                     neg += [tgt for v, tgt in t['targets'] if v == '0']
-        follows(ctx, prog, rid, b, a, 'tokio::fs::read_dir', 'bootstrap:replay→read_dir',
+        follows(ctx, prog, rid, b, a, 'tokio::fs::read_dir', 'bootstrap:replay→read_dir', b_depth=1,
                 what='Manifest::replay', allowed=list(mock) + neg)
